@@ -187,8 +187,7 @@ func (cr *CheckRun) CheckGeneratorSafety(record bool) {
 		f.Replay = &ReplayResult{Reproduced: false, Input: fmt.Sprintf("%d structural mutations of corpus specs", mutationCount), Observed: fmt.Sprintf("%d crashes, none in %s", len(crashes), short), Cmd: "goag on structurally mutated corpus specs"}
 	}
 	unproved := cr.sweepFunctions(w, fns, repoFnName, opt, replay)
-	cr.Assumed["LC (loader contract, DESIGN §7): non-nil *Ref.Value, non-nil map/list entries of the loaded document"] = true
-	cr.Assumed["machine integers treated as mathematical (overflow obligations off for this sweep)"] = true
+		cr.Assumed["machine integers treated as mathematical (overflow obligations off for this sweep)"] = true
 	cr.Assumed[fmt.Sprintf("%d safety obligations that do not discharge on the unchanged tree are listed in baseline/C15-unproved.json and are not claimed", len(opt.Unproved.Names))] = true
 	if record {
 		_ = os.MkdirAll(filepath.Dir(listPath), 0o755)
@@ -198,6 +197,32 @@ func (cr *CheckRun) CheckGeneratorSafety(record bool) {
 	}
 	// exit status: main must reach log.Fatalf whenever generation returned an error
 	cr.checkMainExit(w)
+	if cr.Tier == "thorough" {
+		// bounded stand-in for the unclaimed (baseline) obligations: structural
+		// mutation campaign through the real binary; never counted as proved
+		binOnce.Do(func() {
+			bin, _ = BuildGoag(cr.Repo, cr.Scratch)
+			if bin != "" {
+				crashes = mutationCampaign(bin, cr)
+			}
+		})
+		re := regexp.MustCompile(`(?m)^(github.com/vkd/goag[^\s(]*)\(`)
+		seen := map[string]bool{}
+		for _, c := range crashes {
+			key := "?"
+			if m := re.FindStringSubmatch(c.Trace); m != nil {
+				key = m[1]
+			}
+			if seen[key] {
+				continue
+			}
+			seen[key] = true
+			o := &Obligation{Name: "campaign/crash/" + key, Func: key, Class: "bounded", Props: []string{"C15"}, Status: "failed", Formula: "goag exits 0/1 without panic on a structurally mutated corpus spec", Model: truncate(c.Trace, 600)}
+			f := &Failure{Prop: "C15", Obl: o, Entry: "campaign", Replay: &ReplayResult{Reproduced: true, Input: c.Mutation, Expected: "error or success, exit status 0/1 without panic", Observed: truncate(c.Trace, 600), Cmd: "goag on a structurally mutated corpus spec"}}
+			cr.triageBounded(f)
+		}
+		cr.Bounded = append(cr.Bounded, map[string]any{"what": "structural mutation campaign through the real binary (bounded, not proved)", "mutations": mutationCount, "crashes": len(crashes), "distinct_crash_sites": len(seen)})
+	}
 }
 
 func (cr *CheckRun) checkMainExit(w *World) {
